@@ -296,6 +296,21 @@ func (idx *IVFPQIndex) Add(vector VectorNode) error {
 		return err
 	}
 
+	// Re-adding a removed ID is an update: drop the stale soft-deleted entry
+	// so that the new vector is visible and survives the next Flush.
+	if id := vector.ID(); idx.deletedNodes.Contains(id) {
+		for i, list := range idx.lists {
+			kept := list[:0]
+			for _, cv := range list {
+				if cv.Node.ID() != id {
+					kept = append(kept, cv)
+				}
+			}
+			idx.lists[i] = kept
+		}
+		idx.deletedNodes.Remove(id)
+	}
+
 	// Find nearest IVF centroid
 	listIdx := FindNearestCentroidIndex(vector.Vector(), idx.centroids, idx.distance)
 
